@@ -458,7 +458,10 @@ def gen_spec(r, scenario: str, big: bool) -> dict:
         s["m1"], s["m2"] = 900000 + 2 * j, 900001 + 2 * j
     expect = {"fits": "approve", "fpcap": "approve", "toomany": "toomany", "dup": "dup"}[scenario]
     return {"version": version, "scratch_opt": scratch_opt, "fp": fp, "nsub": nsub, "chain": chain, "vars": vars_,
-            "shared": shared, "expect": expect, "scenario": scenario}
+            "shared": shared, "expect": expect, "scenario": scenario, "shared_options": r.random() < 0.5}
+
+
+_SHARED_OPTIONS: dict = {}
 
 
 def build_and_compile(spec: dict):
@@ -587,7 +590,13 @@ def build_and_compile(spec: dict):
 
     for j in range(1, nsub + 1):
         subs[j] = make_sub(j)
-    opt = pt.OptimizeOptions(scratch_slots=spec["scratch_opt"], frame_pointers=spec["fp"])
+    # every second marker program is compiled with ONE long-lived OptimizeOptions object per setting (the options say how to
+    # compile; whatever a compilation notes on them must not reach the next program)
+    okey = (spec["scratch_opt"], spec["fp"])
+    if spec.get("shared_options"):
+        opt = _SHARED_OPTIONS.setdefault(okey, pt.OptimizeOptions(scratch_slots=spec["scratch_opt"], frame_pointers=spec["fp"]))
+    else:
+        opt = pt.OptimizeOptions(scratch_slots=spec["scratch_opt"], frame_pointers=spec["fp"])
     teal = pt.compileTeal(body(0), pt.Mode.Application, version=spec["version"], optimize=opt)
     return teal, gstate
 
